@@ -65,7 +65,13 @@ Inductive pcase :=
 | PApi (cap : nat) (ops : list aop) (obs : list asnap)
 (* the concurrent stress of the real PublicFilterAPI in a child process: did the process survive
    (Proofs/FilterApiProofs.v filterapi_safe: no interleaving of the modelled code crashes) *)
-| PApiStress (survived : bool).
+| PApiStress (survived : bool)
+(* the real websocket server (rpc/websockets.go) under concurrent clients in a child process: its subscriptions sit on
+   the EventSystem of section 5 and never call Unsubscribe; the consumers' event handling is Total.rpc_pending *)
+| PWsStress (survived : bool)
+(* one modelled function of api.go: does its lock skeleton (order of filtersMu.Lock / Unlock, api.filters accesses,
+   EventSystem calls, timer operations, read off the source) equal the one Model/FilterApi.v splits the call at *)
+| PSkel (matches : bool).
 
 Definition ps_ok (c : pcase) : bool :=
   match c with
@@ -75,6 +81,8 @@ Definition ps_ok (c : pcase) : bool :=
   | PPending hm vb survived => Bool.eqb survived (negb (is_crash (rpc_pending true hm true vb)))
   | PApi cap ops obs => list_eqb asnap_eqb (arun false (fa_init cap) [] ops) obs
   | PApiStress survived => survived
+  | PWsStress survived => survived
+  | PSkel matches => matches
   end.
 
 Definition ps_mismatches (off : nat) (l : list pcase) : list nat := mism ps_ok off l.
